@@ -83,10 +83,16 @@ def run(chk):
     else:
         fams += list(two_level_circuits(limit=60))
     n_eval = 0
-    for kname, c in fams:
+    # second pass over the repository's own Circuit class (full stack) for a subset: the transforms' queries and edits then run
+    # circuit.py's code instead of the reference model's
+    from ..pkgenv import FullStackCaller
+
+    FS = FullStackCaller(repo)
+    fs_subset = [(f"{k_}@full-stack", c_, FS) for k_, c_ in fams if k_ in ("reconv", "consts", "fanout", "in-is-out", "xnor5", "nand4", "or3", "xor4") or k_.startswith("t2::") and k_.endswith(("::7", "::21", "::40"))]
+    for kname, c, caller in [(k_, c_, P) for k_, c_ in fams] + fs_subset:
         for k in (2, 3):
             snap = c._snapshot()
-            r = P.call(FILE, "limit_fanin", c, k)
+            r = caller.call(FILE, "limit_fanin", c, k)
             n_eval += 1
             key = f"limit_fanin::{kname}::k={k}"
             if r[0] != "return" or not isinstance(r[1], RefCircuit):
@@ -117,12 +123,12 @@ def run(chk):
                 spec[f"l{i}"] = (["and", "or", "xor", "nand", "nor"][i % 5], ["drv", "a" if i % 2 else "b"])
             spec["o"] = ("xor", [f"l{i}" for i in range(nl)])
             fanout_models.append((f"fanout::{dname}-drives-{nl}" + ("-and-is-an-output" if as_out and dname != "input" else ""), build(spec, outputs=["o"] + (["drv"] if as_out and dname != "input" else []))))
-    for kname, c in fams + fanout_models:
+    for kname, c, caller in [(k_, c_, P) for k_, c_ in fams + fanout_models] + fs_subset + [(f"{k_}@full-stack", c_, FS) for k_, c_ in fanout_models[::3]]:
         if max(len(c.fanout(n)) for n in c.nodes()) < 3 and not kname.startswith(("fanout", "reconv", "wide")):
             continue
         for k in (2, 3):
             snap = c._snapshot()
-            r = P.call(FILE, "limit_fanout", c, k)
+            r = caller.call(FILE, "limit_fanout", c, k)
             n_eval += 1
             key = f"limit_fanout::{kname}::k={k}"
             if r[0] != "return" or not isinstance(r[1], RefCircuit):
